@@ -56,7 +56,19 @@ where
         .map_err(Box::from)
         .context(BuildChunkSnafu)?;
 
-    let length = data.len() as u16;
+    // the item length field has 16 bits:
+    // fail instead of silently truncating the length of a larger item
+    let length = u16::try_from(data.len())
+        .map_err(|_| {
+            std::io::Error::new(
+                std::io::ErrorKind::InvalidInput,
+                format!(
+                    "item content of {} bytes does not fit a 16-bit length field",
+                    data.len()
+                ),
+            )
+        })
+        .context(WriteLengthSnafu)?;
     writer
         .write_u16::<BigEndian>(length)
         .context(WriteLengthSnafu)?;
